@@ -123,6 +123,8 @@ type endpoint struct {
 	closeInv bool
 	closeRet bool
 	ierrs    []string
+	arrived  []int64 // nonces of requests in the order they were read
+	handledAt int    // position in arrived of the last request given to Handle
 }
 
 type awaitRec struct {
@@ -468,6 +470,11 @@ func (rd *recReader) Read(ctx context.Context) (jsonrpc2.Message, int64, error) 
 	msg, n, err := rd.inner.Read(ctx)
 	if err == nil {
 		rd.ep.read = append(rd.ep.read, rec(msg, rd.ep.r.tick()))
+		if q, ok := msg.(*jsonrpc2.Request); ok {
+			var p params
+			json.Unmarshal(q.Params, &p)
+			rd.ep.arrived = append(rd.ep.arrived, p.Nonce)
+		}
 	}
 	return msg, n, err
 }
@@ -488,7 +495,9 @@ func (wr *recWriter) Write(ctx context.Context, msg jsonrpc2.Message) (int64, er
 				answered++
 			}
 		}
-		if m.id != "<nil>:<nil>" {
+		if m.id == "<nil>:<nil>" {
+			ep.r.fail("oracle:response-without-id", ep.name+" writes a response that carries no id", "response written without an id")
+		} else {
 			if arrived == 0 {
 				ep.r.fail("oracle:unsolicited-response", fmt.Sprintf("%s writes a response for id %s which never arrived", ep.name, m.id), "response written for an id that never arrived")
 			} else if answered >= arrived {
@@ -590,8 +599,28 @@ func (ep *endpoint) handle(ctx context.Context, req *jsonrpc2.Request) (interfac
 	}
 	var p params
 	json.Unmarshal(req.Params, &p)
+	// requests reach the Handler one at a time and in the order they arrived
+	pos := -1
+	for i := ep.handledAt; i < len(ep.arrived); i++ {
+		if ep.arrived[i] == p.Nonce {
+			pos = i
+			break
+		}
+	}
+	if pos < 0 {
+		for i := 0; i < ep.handledAt && i < len(ep.arrived); i++ {
+			if ep.arrived[i] == p.Nonce {
+				r.fail("oracle:handler-order", fmt.Sprintf("%s: Handle(%s nonce %d) was invoked after a request that arrived later", ep.name, req.Method, p.Nonce), "requests handled out of arrival order")
+			}
+		}
+	} else {
+		ep.handledAt = pos + 1
+	}
 	simrt.Yield("handler:" + req.Method)
 	if !req.IsCall() {
+		if req.Method == "fail" {
+			return nil, errors.New("notification handler failed on purpose")
+		}
 		return nil, nil
 	}
 	switch req.Method {
